@@ -172,11 +172,12 @@ def skipBom : Bytes → Bytes
 /-- the text as the C code sees it: up to the first NUL -/
 def cstr (text : Bytes) : Bytes := text.takeWhile (· ≠ 0)
 
-/-- `jbn_from_json(json, &node, pool)`: rc and root node (`none` = `*node == NULL`) -/
+/-- `jbn_from_json(json, &node, pool)`: rc and root node (never `none` since the `!ctx.root` check) -/
 def parse (sd : SD) (text : Bytes) : Except PErr (Option JVal) :=
   let t := skipBom (cstr text)
   match parseValue sd (2 * t.length + 4) 0 t with
   | .error e => .error e
-  | .ok (ov, _) => .ok ov
+  | .ok (none, _) => .error .json          -- a lone `]` ends the value without producing a node
+  | .ok (some v, _) => .ok (some v)
 
 end IwModel.Json
